@@ -80,8 +80,13 @@ impl TimeZone {
     }
 
     pub(crate) fn to_local_time_type(&self, timestamp: i64) -> LocalTimeType {
-        match self.transitions[..] {
-            [] => match &self.extra_rule {
+        // The footer rule describes all times after the last transition (RFC 8536 3.3)
+        let use_rule = match self.transitions.last() {
+            None => true,
+            Some(last) => self.extra_rule.is_some() && last.unix_leap_time <= timestamp,
+        };
+        match use_rule {
+            true => match &self.extra_rule {
                 Some(rule) => match rule {
                     TransitionRule::Fixed(local_time_type) => local_time_type.clone(),
                     TransitionRule::Alternate(altt) => {
@@ -119,7 +124,7 @@ impl TimeZone {
                 },
                 None => self.local_time_types[0].clone(),
             },
-            _ => {
+            false => {
                 let mut local_time_type_index = 0;
                 for transition in self.transitions.iter().rev() {
                     if transition.unix_leap_time <= timestamp {
